@@ -15,8 +15,8 @@ from .common import NCPU, PY, SEED, SRC, MachineryError, Result, scratch, use_re
 TREE_CFG = {
     "q": dict(RootVal="RV_abc", KidVals="KV_q", Types="TY_q", GVals="KV_q", GTypes="TY_0", MaxKids=2, MaxGrand=1),
     "t1": dict(RootVal="RV_abcd", KidVals="KV_q", Types="TY_q", GVals="KV_q", GTypes="TY_0", MaxKids=2, MaxGrand=1),
-    "t2": dict(RootVal="RV_aa", KidVals="KV_t", Types="TY_t", GVals="KV_q2", GTypes="TY_q", MaxKids=3, MaxGrand=1),
-    "t3": dict(RootVal="RV_abc", KidVals="KV_q", Types="TY_0", GVals="KV_q", GTypes="TY_q", MaxKids=2, MaxGrand=2),
+    "t2": dict(RootVal="RV_aa", KidVals="KV_q", Types="TY_0", GVals="KV_q", GTypes="TY_0", MaxKids=3, MaxGrand=1),
+    "t3": dict(RootVal="RV_abc", KidVals="KV_q", Types="TY_0", GVals="KV_q", GTypes="TY_0", MaxKids=2, MaxGrand=2),
 }
 TREE_INVS = ["Refines", "UnchangedId", "SquashAgrees", "RoundTrip", "IterOnce", "Injective"]
 
@@ -176,12 +176,7 @@ TRACE_CFG = "SPECIFICATION Spec\nCHECK_DEADLOCK FALSE\n"
 
 
 def validate(path: str, n: int, workers=8):
-    r = tlc.run("TreeTrace", TRACE_CFG, env={"TRACE_FILE": path}, workers=workers, timeout=3000, heap="12g")
-    v = r.verdicts()
-    judged = [t for t, cl in v.items() if "ACCEPT" in cl or "REJECT" in cl]
-    if not r.completed or len(judged) != n:
-        raise MachineryError(f"TreeTrace: {len(judged)}/{n} judged, rc={r.rc}\n" + r.diagnosis())
-    return v, r
+    return tlc.run_trace("TreeTrace", TRACE_CFG, path, n, workers=workers)
 
 
 def scan_inputs(tier: str, tag: str) -> list[bytes]:
